@@ -8,6 +8,7 @@ From RecordUpdate Require Import RecordSet.
 From MV Require Import Model.ProxyCheck.
 From MV Require Import Model.Proxy Model.ProxySpec Proofs.ProxyReach Proofs.ProxyFamily Proofs.ProxyFam Proofs.ProxyRefute
   Proofs.ProxyThm Proofs.ProxySndErr Proofs.ProxyFilters Proofs.ProxyGen Proofs.ProxySrc Gen.ProxyTokens.
+From MV Require Import Model.ProxyBuiltin Proofs.ProxyBuiltinSrc Proofs.ProxyBuiltinInd Proofs.ProxyBuiltinFam Gen.ProxyBuiltinTokens.
 Import ListNotations RecordSetNotations.
 Open Scope Z_scope.
 
@@ -122,6 +123,64 @@ Example c14_sender_error_filters_never_destroyed :
   g_destroy (summ src_append_error_resets cfg_hdr_refused (sched_answered false)) = 0%nat /\
   g_destroy (summ src_tree cfg_hdr_refused (sched_answered false)) = 1%nat.
 Proof. exact witness_sender_error_no_destroy. Qed.
+
+(* ---- the built-in filters that deny: ip_access, payload_limit, fault_inject (abort) - Model/ProxyBuiltin.v ----
+   [decide_spec l r q]: the decisions as a pure function of the listener-level configuration l, the per-route configuration of THIS
+   request's route r and the request q (effective configuration = the route's override if present, else the listener's; payload_limit
+   denies with the configured status iff the limit is enabled and the body is longer; fault_inject aborts iff cluster and header
+   matchers fit and the abort percentage is 100; ip_access walks its lists).  [serve_all src l (binit l) h]: the filters as the code
+   builds them - one factory per listener configuration, one filter object per stream - over a history h of requests.
+   How the filters get their configuration is read from the source on this run: *)
+Theorem c14_builtin_translator_ok : ProxyBuiltinTokens_translator_ok = true.
+Proof. exact (eq_refl true). Qed.
+Theorem c14_builtin_source_is_verified_source : proxy_bsrc = bsrc_tree.
+Proof. exact (eq_refl bsrc_tree). Qed.
+(* the decision for a request never depends on earlier requests: EVERY listener configuration, EVERY history of requests on any
+   routes; needs, per filter, a fresh configuration object per stream OR a ReadPerRouteConfig that replaces the pointer *)
+Theorem c14_builtin_decision_independent_of_history : forall src l,
+  pl_fresh src || pl_replaces src = true -> fi_fresh src || fi_replaces src = true ->
+  forall h, serve_all src l (binit l) h = map (fun rq => decide src l (fst rq) (snd rq)) h.
+Proof. exact builtin_independent. Qed.
+Print Assumptions c14_builtin_decision_independent_of_history.
+(* for the code in the tree: request k of any history is answered as specified for request k alone *)
+Theorem c14_builtin_history_meets_spec : forall l h,
+  map first_deny (serve_all proxy_bsrc l (binit l) h) = map (fun rq => first_deny (decide_spec l (fst rq) (snd rq))) h.
+Proof. exact builtin_history_spec. Qed.
+Print Assumptions c14_builtin_history_meets_spec.
+(* a factory that hands its own configuration object to every stream, with a ReadPerRouteConfig that writes into it (switches set
+   back): after one request on a route that raises the limit, an oversized request on a route without override is let through *)
+Theorem c14_builtin_shared_config_refuted : ~ builtin_independence_statement bsrc_shared_mutated.
+Proof. exact refuted_shared_mutated. Qed.
+Print Assumptions c14_builtin_shared_config_refuted.
+Example c14_builtin_shared_config_witness :
+  first_deny (decide bsrc_shared_mutated l_pl_only route_b req_100) = Deny 413 /\
+  map first_deny (serve_all bsrc_shared_mutated l_pl_only (binit l_pl_only) [(route_a, req_100); (route_b, req_100)]) = [Allow; Allow] /\
+  map first_deny (serve_all (Build_bsrc true false true true) l_pl_only (binit l_pl_only) [(route_a, req_100); (route_b, req_100)]) = [Allow; Deny 413] /\
+  map first_deny (serve_all (Build_bsrc false true true true) l_pl_only (binit l_pl_only) [(route_a, req_100); (route_b, req_100)]) = [Allow; Deny 413] /\
+  map first_deny (serve_all bsrc_tree l_pl_only (binit l_pl_only) [(route_a, req_100); (route_b, req_100)]) = [Allow; Deny 413].
+Proof. exact witness_shared_mutated. Qed.
+(* denied by a built-in filter => never forwarded: the chain of a request ([builtin_cfg]: every configured built-in filter with the
+   verdict it returns for this request) is a member of the family for the enumerated listener (ip_access deny-list, payload_limit
+   10/413, fault_inject 503 on x-fault), routes (without / with a limit override) and requests (no body / under / over the limit x
+   fault header x listed address); every schedule over the alphabet *)
+Theorem c14_builtin_denied_never_forwarded_family : forall r q, In r b_routes -> In q b_reqs -> forall sched, Forall allowed sched ->
+  let g := summ proxy_src (builtin_cfg bl_all r q) sched in
+  g_denied g = true -> g_new g = 0%nat /\ g_new_after_deny g = false /\
+  (g_started g = true -> exists k code, g_reply_kind g = Some (k, code) /\ k <> KUp).
+Proof. exact builtin_denied_family. Qed.
+Print Assumptions c14_builtin_denied_never_forwarded_family.
+(* and the decision reaches the proxy: run to the end, a request the chain denies is answered with the denying filter's status and
+   no upstream stream is created; one it allows is forwarded once *)
+Theorem c14_builtin_decision_reaches_proxy : forall r q, In r b_routes -> In q b_reqs -> builtin_run_ok bl_all r q = true.
+Proof. exact builtin_run. Qed.
+Print Assumptions c14_builtin_decision_reaches_proxy.
+Example c14_builtin_example :
+  let r := {| r_cluster := 0; r_pl := None; r_fi := None |} in
+  let q := {| q_body := Some 20; q_fault_hdr := false; q_member := [Some false] |} in
+  In r b_routes /\ In q b_reqs /\ first_deny (decide_spec bl_all r q) = Deny 413 /\
+  g_new (summ proxy_src (builtin_cfg bl_all r q) drive) = 0%nat /\
+  g_reply_kind (summ proxy_src (builtin_cfg bl_all r q) drive) = Some (KHijack, 413).
+Proof. exact builtin_example_holds. Qed.
 
 Example c14_example :
   let c := mk false false false RouteForward 2 true 0 [] false 0
